@@ -46,7 +46,7 @@ META = dict(
                 "without_defer_error_leaks_lock is the counterexample), later_entrant_gets_in (safety) + waiter_progress / "
                 "single_name_no_deadlock (progress: a wait cycle needs two names in conflicting program order), "
                 "locked_has_live_holder, no_lost_update, ids_distinct (+ load-then-add / reset counterexamples, "
-                "id_counter_monotone, id_counter_starts_positive)."),
+                "id_counter_monotone, first_thread_id_positive)."),
     level_note=("Trusted: Lean kernel + propext/Classical.choice/Quot.sound; sync.Mutex is a correct lock; each MutexesMutex "
                 "section is one atomic, non-blocking event (supported by the facts table_uses_under_table_lock and "
                 "protocol_order_facts, which are syntactic go/ast analyses with `unknown` where aliases escape — none today); a thread IS its tid (two goroutines evaluating with one "
@@ -97,8 +97,8 @@ def unknown_facts():
     import re
     src = open(GEN).read() if os.path.exists(GEN) else ""
     out = [m.group(1) for m in re.finditer(r'\("((?:[^"\\\\]|\\\\.)*)", "unknown"\)', src)]
-    if "def idCounterInit : Option Nat := none" in src:
-        out.append("idCounterInit")
+    if "def idFirst : Option Nat := none" in src:
+        out.append("idFirst")
     return out
 
 
